@@ -32,6 +32,11 @@
 //! `cx <kind> <pool> <count> <seed>`  kind in global | task | many | types: `<count>` generated hilg/zcg cases called on the
 //!      global rayon pool / from inside a rayon task / all at once from `par_iter` / with every weight container type,
 //!      each result compared with the sequential call in `pool.install` (`context-dependent@…`, `input-type-dependent@…`).
+//! `rs <z|h> <dim> <pool> <order> <parts> <seed> <m> <n_1> … <n_m>`  REUSE SEQUENCE: ONE algorithm value (`ZCurve` / `HilbertCurve`,
+//!      `partition` takes `&mut self`) is used on `m` generated point sets of DIFFERENT sizes `n_1 … n_m` (0, 1, fewer than
+//!      `parts`, more) in this order; every call is judged by the oracle (cells / indices from the hooks) and its ids must equal
+//!      those of a FRESH value on the same input (`value-state-dependent@…`). Model line: `skip …`; the calls are also run as
+//!      ordinary `zcg` / `hilg` ops (full oracle, model).
 //! `seq | <op> | <op> …`  the listed ops run first-thing, in this order, in a fresh CHILD PROCESS (`verif-harness replay`);
 //!      their canonical outputs must equal those of this (warm) process (`process-state-dependent@…`).
 //!      Both are implementation-vs-implementation checks (model line: `skip …`); the calls are also run as ordinary ops.
@@ -1078,6 +1083,7 @@ pub fn run_op(ctx: &mut Ctx, op: &str) {
         Some("hilg") => run_hilg(ctx, &mut t),
         Some("zcg") => run_zcg(ctx, &mut t),
         Some("cx") => run_cx(ctx, &mut t),
+        Some("rs") => run_rs(ctx, &mut t),
         Some("seq") => run_seq(ctx, op),
         _ => None,
     };
@@ -1462,6 +1468,8 @@ pub fn generate(ctx: &mut Ctx) {
     // (9) calling CONTEXT (global pool, inside a rayon task, concurrent calls, input types) and
     // FIRST-CALL sequences in a fresh child process
     context_stream(ctx);
+    // (9b) REUSE SEQUENCES of one algorithm value across calls with different input sizes
+    reuse_sequence_stream(ctx);
     // (10) malformed stream
     for _ in 0..ctx.budget(20, 200) {
         let n = 1 + ctx.rng.usize(5);
@@ -2206,7 +2214,7 @@ fn zc_subnormal_stream(ctx: &mut Ctx) {
         let n = 2 + ctx.rng.usize(18);
         let mag = ctx.rng.usize(6);
         let shift = 1 + ctx.rng.usize(50) as i32;
-        let mut val = |rng: &mut Rng| -> f64 {
+        let val = |rng: &mut Rng| -> f64 {
             match mag {
                 0 => sub(rng.range(-12, 12)),
                 1 => sub(rng.range(0, 64)),
@@ -2276,6 +2284,275 @@ fn zc_subnormal_stream(ctx: &mut Ctx) {
         ctx.count(&format!("special:subnormal:{}:mag{}", name, mag));
         run_op(ctx, &format!("zc {} {} {} {} {} {}", dim, pool, order, parts, n, fmt_f(&c)));
     }
+}
+
+// ------------------------------------------------------------------ reuse sequences of one algorithm value
+
+enum RsHook {
+    Cells(Vec<Vec<u8>>, Vec<usize>),
+    Idx(Vec<u64>),
+}
+
+/// Reuse sequence (added after seeded change C09-r3-3: `ZCurve::partition` stored a part count
+/// capped by the number of points in the algorithm VALUE; every single call was unchanged, a
+/// value that had once seen fewer points than parts partitioned every later set into too few
+/// parts). The part count the calls are judged against is the one the value was BUILT with.
+fn run_rs(ctx: &mut Ctx, t: &mut Toks) -> Option<()> {
+    let algo = t.0.next()?.to_string();
+    let dim = t.usize()?;
+    let pool = t.usize()?;
+    let order = t.u64()?;
+    let parts = t.usize()?;
+    let seed = t.u64()?;
+    let m = t.usize()?;
+    if m == 0 || m > 8 {
+        return None;
+    }
+    let sizes = t.many(m, |t| t.usize())?;
+    let hil = match algo.as_str() {
+        "h" => true,
+        "z" => false,
+        _ => return None,
+    };
+    let max_order = match (hil, dim) {
+        (true, 2) => 32,
+        (true, _) => 21,
+        (false, 2) => 64,
+        (false, _) => 42,
+    };
+    if !(dim == 2 || dim == 3) || pool == 0 || pool > 64 || parts == 0 || parts > (1 << 20) || order > max_order || sizes.iter().any(|n| *n > (1 << 16)) || !t.at_end() {
+        return None;
+    }
+    let name = if hil { "HilbertCurve" } else { "ZCurve" };
+    let op = format!("rs {} {} {} {} {} {} {} {}", algo, dim, pool, order, parts, seed, m, join(&sizes));
+    // exact-sum family 0 (point-symmetric integer sets): the same frame on any pool
+    let sets: Vec<(Vec<f64>, Vec<f64>)> = sizes
+        .iter()
+        .enumerate()
+        .map(|(i, &n)| (gen_family(dim, n, 0, seed + i as u64), gen_int_weights(n, 1, seed + i as u64)))
+        .collect();
+    let sets2 = sets.clone();
+    type Step = (Option<Vec<usize>>, Option<Vec<usize>>, Option<RsHook>);
+    let r = catch_timeout(2 * WATCHDOG_S, move || {
+        with_pool(pool, || {
+            // THE value of the sequence (one of the two is used)
+            let mut zc = coupe::ZCurve { part_count: parts, order: order as u32 };
+            let mut hc = coupe::HilbertCurve { part_count: parts, order: order as u32 };
+            let mut steps: Vec<Step> = Vec::new();
+            for (c, w) in &sets2 {
+                let n = w.len();
+                let call = |zc: &mut coupe::ZCurve, hc: &mut coupe::HilbertCurve| -> Option<Vec<usize>> {
+                    std::panic::catch_unwind(std::panic::AssertUnwindSafe(|| {
+                        let mut ids = vec![UNWRITTEN; n];
+                        let ok = match (hil, dim) {
+                            (true, 2) => hc.partition(&mut ids, (&pts2(c)[..], w.clone())).is_ok(),
+                            (true, _) => hc.partition(&mut ids, (&pts3(c)[..], w.clone())).is_ok(),
+                            (false, 2) => zc.partition(&mut ids, &pts2(c)[..]).is_ok(),
+                            (false, _) => zc.partition(&mut ids, &pts3(c)[..]).is_ok(),
+                        };
+                        if ok {
+                            Some(ids)
+                        } else {
+                            None
+                        }
+                    }))
+                    .ok()
+                    .flatten()
+                };
+                let reused = call(&mut zc, &mut hc);
+                let mut fz = coupe::ZCurve { part_count: parts, order: order as u32 };
+                let mut fh = coupe::HilbertCurve { part_count: parts, order: order as u32 };
+                let fresh = call(&mut fz, &mut fh);
+                let hook = std::panic::catch_unwind(std::panic::AssertUnwindSafe(|| {
+                    if n == 0 {
+                        None
+                    } else {
+                        Some(match (hil, dim) {
+                            (true, 2) => RsHook::Idx(coupe::verif::hilbert::indices_2d(&pts2(c), order as usize)),
+                            (true, _) => RsHook::Idx(coupe::verif::hilbert::indices_3d(&pts3(c), order as usize)),
+                            (false, 2) => RsHook::Cells(
+                                coupe::verif::z_curve::codes::<2>(&pts2(c), order as u32),
+                                coupe::verif::z_curve::permutation::<2>(&pts2(c), order as u32),
+                            ),
+                            (false, _) => RsHook::Cells(
+                                coupe::verif::z_curve::codes::<3>(&pts3(c), order as u32),
+                                coupe::verif::z_curve::permutation::<3>(&pts3(c), order as u32),
+                            ),
+                        })
+                    }
+                }))
+                .ok()
+                .flatten();
+                steps.push((reused, fresh, hook));
+            }
+            steps
+        })
+    });
+    ctx.count(&format!("reuse-seq:{}:pool{}", name, pool));
+    if let Some((out, v)) = caught_out(&r) {
+        finish(ctx, op, out, false, v);
+        return Some(());
+    }
+    let Caught::Ok(steps) = r else { unreachable!() };
+    let mut v: Option<(String, String)> = None;
+    for (i, (reused, fresh, hook)) in steps.iter().enumerate() {
+        let n = sizes[i];
+        let seen = &sizes[..i];
+        if i > 0 {
+            ctx.count("reuse-seq:later-call");
+            if n >= parts && seen.iter().any(|s| *s < parts) {
+                ctx.count("reuse-seq:later-call:n>=parts-after-fewer-points-than-parts");
+            }
+            if seen.contains(&0) {
+                ctx.count("reuse-seq:later-call:after-empty-set");
+            }
+            if seen.iter().any(|s| *s > n) {
+                ctx.count("reuse-seq:later-call:after-larger-set");
+            }
+        }
+        match (reused, fresh) {
+            (Some(a), Some(b)) => {
+                // the property on the reused value's output, for the part count the value was built with
+                v = match hook {
+                    Some(RsHook::Cells(codes, perm)) if codes.len() == n => zcurve_oracle(codes, perm, a, parts),
+                    Some(RsHook::Idx(idx)) if idx.len() == n => hilbert_oracle(idx, a, parts),
+                    _ => None,
+                }
+                .map(|(s, w)| (s, format!("call {} of the sequence (n = {}, built with part_count = {}, earlier sizes {:?}): {}", i + 1, n, parts, seen, w)));
+                if v.is_none() && a != b {
+                    let distinct = |x: &Vec<usize>| {
+                        let mut d = x.clone();
+                        d.sort_unstable();
+                        d.dedup();
+                        d.len()
+                    };
+                    v = Some((
+                        format!("value-state-dependent@{}", name),
+                        format!(
+                            "call {} of the sequence (n = {}, built with part_count = {}) on a value already used on sets of {:?} points: {} of {} ids differ from a fresh value's ({} non-empty parts, fresh {})",
+                            i + 1,
+                            n,
+                            parts,
+                            seen,
+                            a.iter().zip(b.iter()).filter(|(x, y)| x != y).count(),
+                            n,
+                            distinct(a),
+                            distinct(b)
+                        ),
+                    ));
+                }
+            }
+            (None, None) => ctx.count("reuse-seq:call-fails-on-both"),
+            (x, _) => {
+                v = Some((
+                    format!("value-state-dependent@{}", name),
+                    format!(
+                        "call {} of the sequence (n = {}, part_count = {}, earlier sizes {:?}): the reused value {}, a fresh value {}",
+                        i + 1,
+                        n,
+                        parts,
+                        seen,
+                        if x.is_some() { "answers" } else { "fails" },
+                        if x.is_some() { "fails" } else { "answers" }
+                    ),
+                ));
+            }
+        }
+        if v.is_some() {
+            break;
+        }
+    }
+    finish(ctx, op, format!("ok {} calls", m), true, v);
+    // the later calls as ordinary cases: full oracle and exact comparison with the model
+    for (i, &n) in sizes.iter().enumerate().skip(1).take(3) {
+        if n == 0 {
+            continue;
+        }
+        let line = if hil {
+            format!("hilg {} {} {} {} {} 0 0 1 {} 0", dim, pool, order, parts, n, seed + i as u64)
+        } else {
+            format!("zcg {} {} {} {} {} 0 0 {} 0", dim, pool, order, parts, n, seed + i as u64)
+        };
+        run_op(ctx, &line);
+    }
+    Some(())
+}
+
+/// REUSE-SEQUENCE stream: one value across calls with different input sizes — first fewer points
+/// than parts / an empty set / one point, then larger sets (and larger, smaller, larger again).
+fn reuse_sequence_stream(ctx: &mut Ctx) {
+    // fixed core (every run)
+    for algo in ["z", "h"] {
+        for dim in [2usize, 3] {
+            for (k, pool) in [(2usize, 1usize), (3, 4), (5, 1), (64, 4)] {
+                let seqs: Vec<Vec<usize>> = vec![
+                    vec![k - 1, 4 * k],
+                    vec![0, 3 * k + 1],
+                    vec![1, 2 * k],
+                    vec![2, k, 5 * k + 3],
+                    vec![k + 5, 1, k + 5],
+                    vec![0, 0, k],
+                    vec![3 * k, k / 2, 3 * k + 2, 7 * k],
+                ];
+                for sq in seqs {
+                    let seed = ctx.rng.below(1 << 40);
+                    let order = if algo == "z" { 6 } else { 9 };
+                    ctx.count("reuse-seq:core");
+                    run_op(ctx, &format!("rs {} {} {} {} {} {} {} {}", algo, dim, pool, order, k, seed, sq.len(), join(&sq)));
+                }
+            }
+        }
+    }
+    for _ in 0..ctx.budget(80, 1200) {
+        let hil = ctx.rng.chance(1, 2);
+        let dim = 2 + ctx.rng.usize(2);
+        let pool = [1usize, 1, 2, 3, 4, 16][ctx.rng.usize(6)];
+        let parts = match ctx.rng.usize(8) {
+            0 => 2,
+            1 => 3,
+            2 => 4,
+            3 => 7,
+            4 => 16,
+            5 => 64,
+            6 => 257,
+            _ => 2 + ctx.rng.usize(39),
+        };
+        let m = 2 + ctx.rng.usize(4);
+        let big = if ctx.quick() { 1500 } else { 6000 };
+        let mut sizes: Vec<usize> = (0..m)
+            .map(|_| match ctx.rng.usize(9) {
+                0 => 0,
+                1 => 1,
+                2 => 2,
+                3 => parts - 1,
+                4 => parts,
+                5 => parts + 1,
+                6 => ctx.rng.usize(parts),
+                7 => parts + ctx.rng.usize(9 * parts),
+                _ => parts + ctx.rng.usize(big),
+            })
+            .collect();
+        // mostly: a small set somewhere before a set with at least one point per part
+        if ctx.rng.chance(3, 4) {
+            let last = m - 1;
+            if sizes[last] < parts {
+                sizes[last] = parts + ctx.rng.usize(5 * parts);
+            }
+            if !sizes[..last].iter().any(|s| *s < parts) {
+                let j = ctx.rng.usize(last);
+                sizes[j] = ctx.rng.usize(parts);
+            }
+        }
+        let order = if hil { 1 + ctx.rng.usize(if dim == 2 { 32 } else { 21 }) } else { ctx.rng.usize(if dim == 2 { 10 } else { 7 }) };
+        let seed = ctx.rng.below(1 << 40);
+        run_op(ctx, &format!("rs {} {} {} {} {} {} {} {}", if hil { "h" } else { "z" }, dim, pool, order, parts, seed, m, join(&sizes)));
+    }
+    ctx.notes.push(
+        "reuse-sequence stream: ONE ZCurve / HilbertCurve value used on 2-5 generated point sets of different sizes (0, 1, 2, parts-1, parts, \
+         parts+1, below / above the part count, up to thousands), each call judged by the oracle for the part count the value was built with \
+         and required to equal a fresh value's result on the same input"
+            .to_string(),
+    );
 }
 
 // ------------------------------------------------------------------ calling context, process state
